@@ -179,3 +179,35 @@ package types
 //@ end
 
 //@ global ParamsKey abstracts str_key(ParamsKey) == kSParams
+
+// ---------------------------------------------------------------- signers (C13): the transaction must be signed by exactly the party the operation belongs to
+
+//@ func MsgCreateStream.GetSigners(msg) (signers)
+//@   props C13
+//@   requires validBech32(msg.Sender)
+//@   nopanic
+//@   ensures len(signers) == 1 && signers[0] == addrOf(msg.Sender)
+
+//@ func MsgClaimStream.GetSigners(msg) (signers)
+//@   props C13
+//@   requires validBech32(msg.Receiver)
+//@   nopanic
+//@   ensures len(signers) == 1 && signers[0] == addrOf(msg.Receiver)
+
+//@ func MsgTopUpDeposit.GetSigners(msg) (signers)
+//@   props C13
+//@   requires validBech32(msg.Sender)
+//@   nopanic
+//@   ensures len(signers) == 1 && signers[0] == addrOf(msg.Sender)
+
+//@ func MsgUpdateFlowRate.GetSigners(msg) (signers)
+//@   props C13
+//@   requires validBech32(msg.Sender)
+//@   nopanic
+//@   ensures len(signers) == 1 && signers[0] == addrOf(msg.Sender)
+
+//@ func MsgCancelStream.GetSigners(msg) (signers)
+//@   props C13
+//@   requires validBech32(msg.Sender)
+//@   nopanic
+//@   ensures len(signers) == 1 && signers[0] == addrOf(msg.Sender)
